@@ -81,8 +81,9 @@ CHECKS = [
               'bearverif/xh/c08x.py. Bounds: inner script of 2 actions (yield|suspend / return / raise with an int payload in [-1,3], 3 = a non-int '
               'return value; asynchronous generators additionally with or without an awaiting clean-up in `finally`), driver script of 2 '
               'operations out of next|send(v)|throw(E(v))|close (async forms; step / throw / close for coroutines) plus a final close; thorough: '
-              '3x2 and 2x3 scripts and two more configurations. Outside: longer histories, other annotations than Generator[int,int,int] / '
-              'AsyncGenerator[int,int] / int, originals that yield while handling GeneratorExit (the property\'s proviso), real event loops, '
+              '3x2 and 2x3 scripts, two more configurations, the return annotations Generator / Iterator / Iterable (and their asynchronous forms), int / '
+              'Optional[int], and the callable as plain function, method or static method of a class decorated as a whole. Outside: longer '
+              'histories, other annotations, originals that yield while handling GeneratorExit (the property\'s proviso), real event loops, '
               'cancellation, keyword / extra parameters (C04 covers parameter passing for synchronous callables).',
          text='Every harness must come back "Confirmed over all paths" with a refuted reachability twin: for all scripts within the bounds the '
               'caller-visible trace (kind of object produced, yielded values, StopIteration values, exception classes and arguments, suspensions) '
